@@ -394,7 +394,7 @@ Lemma traceback_plain x extra :
   plain extra = true ->
   fget K_atype (traceback_fields x extra) = None /\ fget K_status (traceback_fields x extra) = None.
 Proof.
-  intros P. apply plain_fget. unfold traceback_fields. apply plain_fupdate_plain; [reflexivity|exact P].
+  intros P. apply plain_fget. unfold traceback_fields. apply plain_fupdate_plain; [exact P|reflexivity].
 Qed.
 
 Lemma fields_for_exception_plain c0 s x :
